@@ -33,3 +33,10 @@ Definition law_not_less_task (up vc rq irq : res) : bool :=
 Definition law_kube_units (kcpu kmem : Z) (vc rq : res) : bool :=
   bool_decide (cpu vc = kcpu) && bool_decide (mem vc = kmem) &&
   bool_decide (cpu rq = kcpu) && bool_decide (mem rq = kmem).
+
+(* the whole reservation of a task, in every phase: Resreq, InitResreq and the
+   vector GetPodResourceRequest returns are all upstream's request + pods, and
+   BestEffort is "that vector is empty" (threshold minResource, 1 on integers) *)
+Definition law_task_reservation (up vc rq irq : res) (best_effort : bool) : bool :=
+  law_task_request up vc rq irq &&
+  Bool.eqb best_effort (is_empty 1 (add_scalar up pods_name 1)).
